@@ -14,8 +14,13 @@ From IndGen Require Import Constants.
 From Coq Require Import String SpecFloat.
 Open Scope N_scope.
 
-(* a formatter of Fmt.v has explicit panic outcomes (usize underflow, table index: C15_total
-   shows they are unreachable); a panicking draw writes nothing *)
+(* a formatter of Fmt.v has explicit panic outcomes (usize underflow, table index).  They are
+   unreachable: FmtProofs.fmt_total (exported as C15_total) proves `fmt_model c = Ok _` for every
+   input, and the four formatters used below are the cases CCount, CBytes, CHDur, CFloat of
+   [fmt_model] - so the [Panic] branch of this function is never taken by [fmt_formatters].  That
+   instantiation is NOT restated as a C16 theorem (prose + citation only).  Were the branch taken,
+   the text would be []: TAB-free, but not what a panicking draw does (nothing).  The shards
+   compare [keys_num] with observed texts ([c16_check_env]), so an unexpected [] would show. *)
 Definition ok_or_nil (o : outcome (list N)) : text := match o with Ok s => s | Panic _ => [] end.
 
 Definition NS : N := Fmt.NANOS_PER_SEC.
@@ -57,3 +62,27 @@ Definition keys_num (dec32 : N -> spec_float) (snap : N -> Keys.snapshot) (d id 
 Definition keys_env (cols : text -> N) (termw : N -> N) (geom : N -> N -> N * option N * N)
                     (dec32 : N -> spec_float) (snap : N -> Keys.snapshot) : env :=
   mkenv cols termw (keys_num dec32 snap) geom.
+
+(** ------------------------------------------------------------------ correspondence
+    The tie of [keys_num] to the code inside C16's own shards: for the keys whose snapshot the
+    harness knows exactly - position, length, elapsed time, fraction (as the f64 bit pattern of
+    `fraction * 100f32`, exactly representable) - the text observed on the shadow bar must be the
+    text [keys_num] computes.  (eta / per_sec / duration depend on the estimator's floats and are
+    compared by C09 / C11 / C15's checks only.) *)
+Record envobs := mkenvobs { eo_pos : N; eo_len : option N; eo_pct : N; eo_elapsed : N;
+                            eo_id : N; eo_w : option N; eo_text : text }.
+Definition envobs_snapshot (o : envobs) : Keys.snapshot :=
+  {| Keys.s_pos := eo_pos o; Keys.s_len := eo_len o; Keys.s_tick := 0; Keys.s_finished := false;
+     Keys.s_message := []; Keys.s_prefix := [];
+     Keys.s_obs := {| Keys.o_fraction := eo_pct o; Keys.o_elapsed := eo_elapsed o; Keys.o_eta := 0;
+                      Keys.o_duration := 0; Keys.o_per_sec := 0 |} |}.
+(* the `percent` keys: [f_percent p bits] gets [o_fraction]; here that field carries the f64 bits
+   of the already multiplied value and [dec32] is Fmt.decode64 *)
+Definition envobs_ok (o : envobs) : bool :=
+  text_eqb (keys_num Fmt.decode64 (fun _ => envobs_snapshot o) 0 (eo_id o) (eo_w o)) (eo_text o).
+
+(* a C16 case: the history case of Tabs.c16_check plus the numeric-key observations *)
+Definition c16_check_env
+  (c : (N * list (N * N) * list (N * text) * list (N * N * option N * text)
+          * list (N * N * (N * option N * N)) * list op * list out) * list envobs) : bool :=
+  c16_check (fst c) && forallb envobs_ok (snd c).
